@@ -13,12 +13,18 @@ from dask_array.io._base import IO
 class FromNpyStack(IO):
     """Expression for loading an array from a stack of .npy files."""
 
-    _parameters = ["dirname", "mmap_mode"]
-    _defaults = {"mmap_mode": "r"}
+    # ``info`` (the directory's info file, read when the array is created) is
+    # an operand so that it takes part in the name: a directory that is
+    # rewritten with another layout is another array, not the cached one.
+    _parameters = ["dirname", "mmap_mode", "info"]
+    _defaults = {"mmap_mode": "r", "info": None}
 
     @functools.cached_property
     def _info(self):
-        """Load and cache the info file."""
+        """The info file: as read at creation, else loaded and cached."""
+        info = self.operand("info")
+        if info is not None:
+            return info
         dirname = self.operand("dirname")
         with open(os.path.join(dirname, "info"), "rb") as f:
             return pickle.load(f)
@@ -64,4 +70,6 @@ def from_npy_stack(dirname, mmap_mode="r"):
     """
     from dask_array._new_collection import new_collection
 
-    return new_collection(FromNpyStack(dirname=dirname, mmap_mode=mmap_mode))
+    with open(os.path.join(dirname, "info"), "rb") as f:
+        info = pickle.load(f)
+    return new_collection(FromNpyStack(dirname=dirname, mmap_mode=mmap_mode, info=info))
